@@ -126,13 +126,10 @@ found:
 		return errors.New("index: attempt to add record out of position sort order")
 	}
 	i.LastRecord = r.Start()
-	eiv := r.End() / TileWidth
-	if eiv == len(ref.Intervals) {
-		if eiv > biv {
-			panic("index: unexpected alignment length")
-		}
-		ref.Intervals = append(ref.Intervals, c.Begin)
-	} else if eiv > len(ref.Intervals) {
+	// eiv is one past the last tile overlapped by the
+	// half-open interval [r.Start(), r.End()).
+	eiv := (r.End()-1)/TileWidth + 1
+	if eiv > len(ref.Intervals) {
 		intvs := make([]bgzf.Offset, eiv)
 		if len(ref.Intervals) > biv {
 			biv = len(ref.Intervals)
